@@ -276,7 +276,14 @@ def c10_case(c, agg):
     out = numeric_toks(split_toks(i[0])) + numeric_toks(split_toks(i[3]))
     if len(exp) != len(out) or [tok_kind(t) for t in exp] != [tok_kind(t) for t in out]:
         agg["c10_unaligned"] += 1
-        return []
+        # the numeric tokens of the output are not the source's, kind by kind (a dimension that became a plain
+        # number, a dropped or an added numeric token): reported unless the sheet is in a known re-lexing class
+        j = 0
+        while j < min(len(exp), len(out)) and tok_kind(exp[j]) == tok_kind(out[j]):
+            j += 1
+        return [("numeric token #%d changed kind or the numeric tokens do not line up" % j,
+                 tok_strings(exp[j])[0] if j < len(exp) else "<end>", "",
+                 "".join(tok_strings(out[j])[:2]) if j < len(out) else "<end>", False)]
     ratio = f32_of_bits(int(split_toks(c.opts)[3]))
     bad = []
     for e, o in zip(exp, out):
